@@ -72,6 +72,25 @@ def nontrivial_blob(blob):
     return False
 
 
+def only_modelled(fails):
+    """the failure classes the model reproduces (it mirrors the code as it
+    is): categorical confidence column, None stored as NaN.  For those the
+    model comparison still runs."""
+    return all(cls.endswith('level-name-contains-label-name-alias')
+               or cls.endswith('null-becomes-nan') for cls, _ in fails)
+
+
+def first_of_each_class(fails, limit=6):
+    """[(class, message)] -> the first failure of every distinct class, so
+    that a known failure class never hides a different one in the same case"""
+    out, seen = [], set()
+    for cls, msg in fails:
+        if cls not in seen:
+            seen.add(cls)
+            out.append((cls, msg))
+    return out[:limit]
+
+
 def corr_violation(ctx, sig, what, detail, fn):
     ctx.disagreements_checked += 1
     d = dict(detail)
@@ -86,6 +105,21 @@ def compare_h5_model(ctx, blob, h5_real, back_real, impl_err, detail, label,
     bj = ou.blob_json(blob, st)
     out = ctx.model('output.h5', {'blob': bj})
     mh, mb = out['h5'], out['back']
+    ctx.count('outInv:%s:%s' % ('valid' if label in ('valid', 'pipeline')
+                                else 'malformed', out['outInv']))
+    if label == 'valid' and not out['outInv']:
+        from ctmverif import core
+        raise core.InfraError('generator produced a blob outside OutInv: %s'
+                              % json.dumps(detail, default=repr)[:2000])
+    if out['outInv'] and not pred_failed and (
+            impl_err is not None or 'err' in mh or 'err' in mb
+            or mb['ok'] != bj):
+        # theorem h5_roundtrip says this cannot happen in the model; the
+        # implementation disagreeing is reported below as a correspondence
+        # failure, the model disagreeing would be a bug in this harness
+        if 'err' in mh or 'err' in mb or mb['ok'] != bj:
+            from ctmverif import core
+            raise core.InfraError('model contradicts theorem h5_roundtrip')
     if pred_failed:
         return
     if impl_err is not None:
@@ -311,11 +345,12 @@ def check_direct(ctx, detail):
             else:
                 fails = ou.check_h5_roundtrip(blob, back)
                 if fails:
-                    pred_failed = True
-                    ctx.violation(
-                        'C15/h5/' + fails[0][0],
-                        'HDF5 round trip does not reproduce the JSON output: '
-                        '%s' % fails[0][1], dict(detail, fails=fails[:5]))
+                    pred_failed = not only_modelled(fails)
+                    for cls, msg in first_of_each_class(fails):
+                        ctx.violation(
+                            'C15/h5/' + cls,
+                            'HDF5 round trip does not reproduce the JSON '
+                            'output: %s' % msg, dict(detail, fails=fails[:5]))
         if ctx.driver_ok:
             compare_h5_model(ctx, blob, h5, back, impl_err, detail, label,
                              pred_failed)
@@ -353,11 +388,12 @@ def check_direct(ctx, detail):
                                      json_name='the output.json',
                                      flatten=flatten)
                 if fails:
-                    pred_failed = True
-                    ctx.violation(
-                        'C15/csv/' + fails[0][0],
-                        'CSV output disagrees with the JSON output: %s'
-                        % fails[0][1], dict(detail, fails=fails[:5]))
+                    pred_failed = not only_modelled(fails)
+                    for cls, msg in first_of_each_class(fails):
+                        ctx.violation(
+                            'C15/csv/' + cls,
+                            'CSV output disagrees with the JSON output: %s'
+                            % msg, dict(detail, fails=fails[:5]))
         if ctx.driver_ok:
             compare_csv_model(ctx, tree, blob['results'], iters, comments,
                               header, rows, 'the output.json', flatten,
@@ -477,7 +513,8 @@ def check_reorder(ctx, detail):
 # (i) real run_mapping runs
 # ---------------------------------------------------------------------------
 
-def gen_pipeline_spec(rng, tainted=False, single_leaf=False, quick=True):
+def gen_pipeline_spec(rng, tainted=False, single_leaf=False, quick=True,
+                      many_chunks=False):
     if single_leaf:
         tree = ou.gen_tree(rng, depth=rng.randint(1, 3), max_top=1,
                            max_children=1, nasty=False)
@@ -512,6 +549,13 @@ def gen_pipeline_spec(rng, tainted=False, single_leaf=False, quick=True):
     elif r < 0.5:
         drop_level = 'not_a_level'
     n_cells = rng.choice([1, 2, 4, 7, 11])
+    chunk_size = rng.choice([1, 3, 10])
+    if many_chunks:
+        # chunk result files are gathered in lexicographic order of
+        # "<r0>_<r1>": with a two-digit r0 that is not query order, so the
+        # output order really depends on re_order_blob
+        n_cells = rng.choice([12, 13, 23])
+        chunk_size = rng.choice([1, 3])
     spec = {
         'kind': 'pipeline', 'tree': tree, 'seed': rng.randrange(2 ** 30),
         'n_cells': n_cells,
@@ -520,7 +564,7 @@ def gen_pipeline_spec(rng, tainted=False, single_leaf=False, quick=True):
         'n_runners': rng.choice([0, 1, 2, 3]),
         'flatten': flatten, 'drop_level': drop_level,
         'n_processors': rng.choice([1, 2]),
-        'chunk_size': rng.choice([1, 3, 10]),
+        'chunk_size': chunk_size,
         'bootstrap_factor': rng.choice([0.5, 0.9, 1.0]),
         'encoding': rng.choice(['dense', 'csr', 'csc']),
     }
@@ -620,13 +664,13 @@ def check_pipeline(ctx, spec):
         if back is not None:
             f2 = ou.check_h5_roundtrip(out, back)
             if f2:
-                h5_failed = True
-                cls = f2[0][0]
-                if cls.endswith('null-becomes-nan') and \
-                        len(tree[h[-1]]) == 1:
-                    cls += '/single-leaf-taxonomy'
-                fails.append(('h5/' + cls, 'HDF5 round trip does not '
-                              'reproduce the JSON output: ' + f2[0][1]))
+                h5_failed = not only_modelled(f2)
+                for cls, msg in first_of_each_class(f2):
+                    if cls.endswith('null-becomes-nan') and \
+                            len(tree[h[-1]]) == 1:
+                        cls += '/single-leaf-taxonomy'
+                    fails.append(('h5/' + cls, 'HDF5 round trip does not '
+                                  'reproduce the JSON output: ' + msg))
         # --- CSV
         conf_key, conf_label = conf_of(spec['iters'])
         comments, header, rows = ou.read_csv_raw(d / 'out' / 'out.csv')
@@ -634,10 +678,10 @@ def check_pipeline(ctx, spec):
         f3 = ou.check_csv(etree, results, comments, header, rows, conf_key,
                           conf_label, json_name='out.json',
                           flatten=spec['flatten'])
-        csv_failed = bool(f3)
-        if f3:
-            fails.append(('csv/' + f3[0][0], 'CSV output disagrees with the '
-                          'JSON output: ' + f3[0][1]))
+        csv_failed = bool(f3) and not only_modelled(f3)
+        for cls, msg in first_of_each_class(f3):
+            fails.append(('csv/' + cls, 'CSV output disagrees with the '
+                          'JSON output: ' + msg))
         if rows is not None and [r[0] for r in rows] != list(
                 spec['cell_ids']) and not f3:
             fails.append(('csv/cell-order', 'CSV rows are not the query '
@@ -701,7 +745,9 @@ def run(ctx):
     # direct blobs
     n_direct = 150 if quick else 1500
     for i in range(n_direct):
-        blob = ou.gen_blob(rng, nasty=(i % 5 != 0))
+        tree = ou.gen_tree(rng, nasty=(i % 5 != 0),
+                           tainted=(rng.random() < 0.03))
+        blob = ou.gen_blob(rng, tree=tree, nasty=(i % 5 != 0))
         iters = rng.choice([1, 1, 2, 10, 32, 100])
         flatten = rng.choice([None, False, True])
         check_direct(ctx, {'kind': 'direct', 'label': 'valid', 'blob': blob,
@@ -726,7 +772,10 @@ def run(ctx):
     # pipeline runs
     n_pipe = 24 if quick else 260
     for i in range(n_pipe):
-        spec = gen_pipeline_spec(rng, quick=quick)
+        r = rng.random()
+        spec = gen_pipeline_spec(rng, quick=quick, many_chunks=(i % 6 == 5),
+                                 tainted=(r < 0.04),
+                                 single_leaf=(0.04 <= r < 0.07))
         check_pipeline(ctx, spec)
 
 
